@@ -321,6 +321,25 @@ def s_first_chunk(I, w, frame, site, fn, args, term, with_rest=False):
     return out
 
 
+def s_split_last_chunk(I, w, frame, site, fn, args, term):
+    # `slice.split_last_chunk::<N>()`: Some((the rest, &[T; N] over the last N elements)) when len >= N
+    s = args[0]
+    n = _chunk_len(term['dest_ty'])
+    if s[0] != 'slice' or n is None:
+        return None
+    out = []
+    w1 = w.fork()
+    if I.assume(w1, ('cmp', 'lt', s[3], Lin.c(n)), True):
+        out.append((w1, ('enum', ((0, ()),))))
+    w2 = w.fork()
+    if I.assume(w2, ('cmp', 'le', Lin.c(n), s[3]), True):
+        root = ('O', Obj.fresh())
+        w2.mem[root] = ('arr', n, ('bytes_of', s[1], s[2] + s[3] - n))
+        w2.names[root] = f"{w2.name_of(s[1].root)}[{(s[2] + s[3] - n).pretty()}..+{n}]"
+        out.append((w2, ('enum', ((1, (('agg', (('slice', s[1], s[2], s[3] - n), ('ref', Loc(root)))),)),))))
+    return out
+
+
 def s_split_first_chunk(I, w, frame, site, fn, args, term):
     return s_first_chunk(I, w, frame, site, fn, args, term, with_rest=True)
 
@@ -1027,6 +1046,7 @@ TABLE = {
     'core::slice::split_last': s_split_last,
     'core::slice::first_chunk': s_first_chunk,
     'core::slice::split_first_chunk': s_split_first_chunk,
+    'core::slice::split_last_chunk': s_split_last_chunk,
     'core::slice::iter': s_iter,
     'core::slice::iter::into_iter': s_iter,          # `for x in slice` (IntoIterator for &[T])
     "<&'a std::vec::Vec as std::iter::IntoIterator>::into_iter": s_iter,
